@@ -1376,7 +1376,7 @@ def _parse_output_keys(result: dict, lit: LineIterator) -> dict:
     if "stderr" in result:
         extra_dict["stderr"] = result["stderr"]
     if "stdout" in result:
-        extra_dict["stderr"] = result["stdout"]
+        extra_dict["stdout"] = result["stdout"]
     if "wavefunction" in result:
         extra_dict["wavefunction"] = result["wavefunction"]
 
